@@ -124,6 +124,7 @@ pub fn run(cases: &[String]) -> RunOut {
                     let b = unhex(t[2]);
                     let r = ArrayDiscriminator::try_from(&b[..]);
                     let mut err = None;
+                    let mut borsh_note = "";
                     if r.is_ok() != (b.len() == 8) { err = Some("a slice converts iff it is exactly 8 bytes: violated".to_string()); }
                     if let Ok(d) = &r {
                         let a: [u8; 8] = (*d).into();
@@ -132,12 +133,13 @@ pub fn run(cases: &[String]) -> RunOut {
                         // const constructor, array view and Borsh: all the identity on the 8 bytes
                         let r3: &[u8; 8] = d.as_ref();
                         if ArrayDiscriminator::new(a) != *d || r3 != &a { err = Some("new / AsRef<[u8; 8]> are not the identity".into()); }
+                        // Borsh is not mentioned by the property: exercised for coverage, a difference is a fidelity note
                         let bo = borsh::to_vec(d).unwrap();
-                        if bo != b || borsh::from_slice::<ArrayDiscriminator>(&bo).ok() != Some(*d) { err = Some("borsh encoding is not the 8 bytes".into()); }
+                        if bo != b || borsh::from_slice::<ArrayDiscriminator>(&bo).ok() != Some(*d) { borsh_note = " | note: borsh encoding is not the 8 bytes"; }
                     }
                     if !b.is_empty() { out.stats.nontrivial_case(line); }
                     out.stats.bump(if r.is_ok() { "conv:slice-ok" } else { "conv:slice-err" });
-                    (match r { Ok(d) => format!("ok {}", hex(d.as_slice())), Err(_) => "err".into() }, err)
+                    (match r { Ok(d) => format!("ok {}{borsh_note}", hex(d.as_slice())), Err(_) => "err".into() }, err)
                 }
                 _ => panic!("conv kind"),
             },
